@@ -9,7 +9,8 @@ ID = 'C12'
 TITLE = 'dtype strings <-> formats'
 RULE = ('events get_dtype(notation) (result string vs the receiver\'s format, requested notation, else the configured one), constructor / resize with '
         'dtype=<string> (resulting signed, n_word, n_frac, complex must equal an independent parse of the string, in fxp and Q/UQ/S/U spellings and any '
-        'letter case), the dtype attribute after construction/resize (configured notation), fxp_sum(dtype=) (utils.get_sizes_from_dtype). Key = '
+        'letter case), the dtype attribute of every receiver after a writing call and of every freshly created result (configured notation, complex suffix = the object '
+        'itself is complex, n_word<=52), fxp_sum(dtype=) in both notations and any case incl. the complex suffix (utils.get_sizes_from_dtype). Key = '
         '(signedness, word class, fraction class, complex, configured notation, requested notation / spelling family, event); non-trivial = fraction '
         'class in {<0, >n_word} or complex or requested notation != configured.')
 DECIDING_OPS = ['get_dtype', '__init__', 'resize', 'fxp_sum']
@@ -101,9 +102,9 @@ def make_judges(ctx):
         got = (post.signed, post.n_word, post.n_frac)
         if got != (sg, w, nf):
             ctx.violation('parse', '%s(dtype=%r) produced %s, the string denotes %s' % (ev.op, s, R.dtype_fxp(*got), R.dtype_fxp(sg, w, nf)), ev)
-        elif cx and not post.is_complex:
-            ctx.violation('parse_complex', '%s(dtype=%r) produced a non-complex object' % (ev.op, s), ev)
-        elif cx and (ev.op == 'resize' or d.get('val') is None or d.get('raw')) and post.cfg.get('_dtype_notation') == 'fxp' and not str(post.dtype).endswith('-complex'):
+        elif cx and w <= 52 and not post.cx_obj:
+            ctx.violation('parse_complex', '%s(dtype=%r) produced a non-complex object (value type %s)' % (ev.op, s, getattr(post.vdtype, '__name__', post.vdtype)), ev)
+        elif cx and w <= 52 and post.cfg.get('_dtype_notation') == 'fxp' and not str(post.dtype).endswith('-complex'):
             # the dtype string and the (signed, n_word, n_frac, complex) tuple determine each other
             ctx.violation('parse_complex', 'after %s(dtype=%r) the dtype string is %r (no complex suffix)' % (ev.op, s, post.dtype), ev)
         elif ev.op == '__init__' and not cx and post.is_complex and d.get('val') is None:
@@ -113,15 +114,50 @@ def make_judges(ctx):
                    nontrivial(post, cfgnot, None) or fam != 'fxp', {'op': ev.op, 'dtype_arg': s, 'result': R.dtype_fxp(*got), 'complex': post.is_complex} if ctx.want_sample() and nf < 0 else None)
         ctx.floor_hit(('parse', ev.op, fam))
 
+    WRITERS = ('__init__', 'resize', 'set_val', '__call__', '__setitem__')
+
+    def attr_judge(ev):
+        # "the dtype string of an object and its (signed, n_word, n_frac, complex) tuple determine each other": judged where the
+        # library (re)renders the string - on the receiver after a writing call, and on a freshly created result object
+        if ev.kind not in ('method', 'function'):
+            return
+        subj = []
+        if ev.kind == 'method' and ev.op in WRITERS and ev.exc is None and ev.post and ev.post[0] is not None:
+            subj.append(('receiver', ev.post[0]))
+        r = ev.result_snap
+        if r is not None and ev.exc is None and all(p is None or p.oid != r.oid for p in ev.pre):
+            subj.append(('result', r))
+        for role, q in subj:
+            if not (1 <= q.n_word <= 256 and -8 <= q.n_frac <= q.n_word + 8):
+                ctx.skip('attr:format outside the quantifier')
+                continue
+            cfgnot = q.cfg.get('_dtype_notation')
+            if cfgnot == 'Q':
+                want = [R.dtype_q(q.signed, q.n_word, q.n_frac)]
+            elif q.n_word <= 52:
+                want = [R.dtype_fxp(q.signed, q.n_word, q.n_frac, q.cx_obj)]
+            else:
+                want = [R.dtype_fxp(q.signed, q.n_word, q.n_frac, False), R.dtype_fxp(q.signed, q.n_word, q.n_frac, True)]
+            if q.dtype not in want:
+                ctx.violation('dtype_stale', 'after %s the %s has dtype attribute %r; its format is %s, complex=%s (value type %s), configured notation %s'
+                              % (ev.op, role, q.dtype, R.dtype_fxp(*q.fmt()), q.cx_obj, getattr(q.vdtype, '__name__', q.vdtype), cfgnot), ev, key='dtype.attr_stale')
+            ctx.judged(key_of(q, cfgnot, role, 'attr:' + (ev.op if ev.op in WRITERS or ev.op == '__getitem__' else 'op')), nontrivial(q, cfgnot, None) or q.cx_obj, None)
+            if q.cx_obj:
+                ctx.floor_hit(('attr_complex', role))
+
     def fxpsum_judge(ev):
         if ev.kind != 'function' or ev.op != 'fxp_sum':
             return
         s = ev.kwargs.get('dtype')
-        if not isinstance(s, str) or not s.lower().startswith('fxp'):
+        if not isinstance(s, str):
             return
         try:
             sg, w, nf, cx = R.parse_dtype(s)
         except (ValueError, IndexError):
+            return
+        fam = 'fxp' if s.lower().startswith('fxp') else 'Q'
+        if not (1 <= w <= 256 and -8 <= nf <= w + 8) or (fam == 'Q' and w - nf < 0):
+            ctx.skip('fxp_sum:format outside the quantifier')
             return
         if ev.exc is not None or ev.result_snap is None:
             ctx.violation('fxp_sum_raises', 'fxp_sum(dtype=%r) raised %s: %s' % (s, type(ev.exc).__name__ if ev.exc else 'no object', str(ev.exc)[:100]), ev, key='dtype.get_sizes')
@@ -129,15 +165,19 @@ def make_judges(ctx):
         r = ev.result_snap
         if r.fmt() != (sg, w, nf):
             ctx.violation('fxp_sum', 'fxp_sum(dtype=%r) returned format %s' % (s, R.dtype_fxp(*r.fmt())), ev)
-        ctx.judged(('fxp_sum', sg, G.word_class(w), G.frac_class(w, nf), cx), nf < 0 or nf > w or cx, None)
+        elif cx and w <= 52 and not r.cx_obj:
+            ctx.violation('fxp_sum_complex', 'fxp_sum(dtype=%r) returned a non-complex object' % (s,), ev, key='dtype.get_sizes_complex')
+        ctx.judged(('fxp_sum', sg, G.word_class(w), G.frac_class(w, nf), cx, fam, s != s.lower()), nf < 0 or nf > w or cx or fam == 'Q', None)
         ctx.floor_hit(('fxp_sum', cx, 'neg' if nf < 0 else 'pos'))
-    return [getdtype_judge, parse_judge, fxpsum_judge]
+        if fam == 'Q':
+            ctx.floor_hit(('fxp_sum', 'Q'))
+    return [getdtype_judge, parse_judge, attr_judge, fxpsum_judge]
 
 
 def floors(tier):
     cells = [('get_dtype', c, r) for c in ('fxp', 'Q') for r in (None, 'fxp', 'Q')]
     cells += [('parse', op, fam) for op in ('__init__', 'resize') for fam in ('fxp', 'Q', 'UQ', 'S', 'U')]
-    cells += [('fxp_sum', False, 'neg'), ('fxp_sum', True, 'pos'), ('fxp_sum', False, 'pos')]
+    cells += [('fxp_sum', False, 'neg'), ('fxp_sum', True, 'pos'), ('fxp_sum', False, 'pos'), ('fxp_sum', 'Q'), ('attr_complex', 'receiver'), ('attr_complex', 'result')]
     return cells
 
 
@@ -227,10 +267,44 @@ def run_case(case, ctx):
                 if z2 is not None:
                     _try(lambda: z2.get_dtype())
                     _try(lambda: Fxp(None, dtype=z2.get_dtype('fxp')))
+                # complex objects with a history: results of arithmetic, their elements, real / complex writes under a complex or real string
+                if ctx.tier == 'thorough' or j % 10 == 0:
+                    r0 = _try(lambda: Fxp([0.0, 0.0], s, w, nf, dtype_notation=cfgnot))
+                    if r0 is not None:
+                        zr = _try(lambda: r0 * 1j)
+                        for zz in (zr, _try(lambda: r0 + 0j), _try(lambda: -zr), _try(lambda: zr.conj()), _try(lambda: np.cumsum(zr)),
+                                   _try(lambda: Fxp(zr, s, w, nf + (1 if j % 2 else -1)))):
+                            if zz is not None:
+                                e = _try(lambda: zz[0])
+                                _try(lambda: zz[-1:])
+                                if e is not None:
+                                    _try(lambda: e.get_dtype('fxp'))
+                                    _try(lambda: Fxp(None, dtype=e.dtype))
+                    _try(lambda: Fxp(0, dtype=cx, dtype_notation=cfgnot))
+                    _try(lambda: Fxp([0.0, 0], dtype=cx))
+                    zl = _try(lambda: Fxp(0j, s, w, nf))
+                    if zl is not None:
+                        _try(lambda: Fxp(0.0, like=zl))
+                        _try(lambda: zl(0.0))
+                    rw = _try(lambda: Fxp(0.0, s, w, nf + (1 if j % 2 else -1), dtype_notation=cfgnot))
+                    if rw is not None:
+                        _try(lambda: rw.resize(dtype=cx))
+                        _try(lambda: rw(0.0))
+                    x3 = _try(lambda: Fxp([0.0, 0.0], s, w, nf))
+                    if x3 is not None:
+                        _try(lambda: x3.set_val(x3.val, raw=True, vdtype=complex))
+                    x4 = _try(lambda: Fxp([0.0, 0.0], s, w, nf))
+                    if x4 is not None:
+                        _try(lambda: x4.set_val(np.array([0j, 0j])))
             # fxp_sum(dtype=) goes through utils.get_sizes_from_dtype
             if w <= 40 and (ctx.tier == 'thorough' or j % 7 == 0 or nf < 0):
-                a = _try(lambda: Fxp(np.zeros(2), s, w, nf))
+                a = _try(lambda: Fxp(np.zeros(2), s, w, nf, dtype_notation=cfgnot))
                 if a is not None:
                     _try(lambda: fm.fxp_sum(a, dtype=fx))
+                    _try(lambda: fm.fxp_sum(a, dtype=a.dtype))      # (Q notation when that is the configured one)
                     if j % 2:
                         _try(lambda: fm.fxp_sum(a, dtype=R.dtype_fxp(s, w, nf, True)))
+                    else:
+                        _try(lambda: fm.fxp_sum(a, dtype=swapcase_some(fx, j // 2)))
+                        if w - nf >= 0:
+                            _try(lambda: fm.fxp_sum(a, dtype=swapcase_some('%s%d.%d' % ('Q' if s else 'UQ', w - nf, nf), j // 2)))
